@@ -71,7 +71,7 @@ type VCell struct {
 	Version uint64
 	Deleted bool
 	Index   uint64
-	Val     uint8 // value tag
+	Val     [2]byte // the stored (2-byte) value
 }
 
 var (
@@ -83,8 +83,13 @@ var (
 
 const VConfigID = configapi.ConfigurationID("t1-ty-1")
 
+// VValue: the 2-byte value "v<tag>" used by the harnesses that write tagged values
 func VValue(tag uint8) configapi.TypedValue {
 	return *configapi.NewTypedValueString("v" + "0123456789"[tag:tag+1])
+}
+
+func vCellValue(b [2]byte) configapi.TypedValue {
+	return *configapi.NewTypedValueString(string(b[:]))
 }
 
 type vEntry = _map.Entry[string, *configapi.PathValue]
@@ -94,7 +99,7 @@ func vMkEntry(cells *[VNP]VCell, i int) *vEntry {
 	e.Version = primitive.Version(cells[i].Version)
 	pv := &configapi.PathValue{Path: VPath(i), Deleted: cells[i].Deleted, Index: configapi.Index(cells[i].Index)}
 	if !pv.Deleted {
-		pv.Value = VValue(cells[i].Val)
+		pv.Value = vCellValue(cells[i].Val)
 	}
 	e.Value = pv
 	return e
@@ -143,7 +148,7 @@ type vOp struct {
 	version uint64
 	deleted bool
 	index   uint64
-	val     uint8
+	val     [2]byte
 }
 
 type vTxn struct {
@@ -156,11 +161,13 @@ func (m *vPVMap) Transaction(ctx context.Context) _map.Transaction[string, *conf
 	return &vTxn{cells: m.cells}
 }
 
-func vTag(pv *configapi.PathValue) uint8 {
+func vTag(pv *configapi.PathValue) [2]byte {
+	var b [2]byte
 	if pv == nil || pv.Deleted || len(pv.Value.Bytes) != 2 {
-		return 0
+		return b
 	}
-	return pv.Value.Bytes[1] - '0'
+	b[0], b[1] = pv.Value.Bytes[0], pv.Value.Bytes[1]
+	return b
 }
 
 func (t *vTxn) Insert(key string, value *configapi.PathValue, opts ..._map.InsertOption) _map.Transaction[string, *configapi.PathValue] {
